@@ -1193,7 +1193,7 @@ PROP_MODULES = {
     "C02": [_IO + "newickreader", _IO + "newickwriter", _IO + "nexusreader", _IO + "nexuswriter", _IO + "nexusprocessing", _IO + "nexmlreader", _IO + "nexmlwriter", _IO + "tokenizer", _IO + "nexmlyielder"],
     "C03": [_TMD + "_tree", _TMD + "_node", _TMD + "_edge"],
     "C04": ["dendropy.calculate.treecompare", _TMD + "_tree", _TMD + "_bipartition", _DM + "taxonmodel"],
-    "C05": [_DM + "treecollectionmodel", "dendropy.calculate.treesum", "dendropy.calculate.statistics"],
+    "C05": [_DM + "treecollectionmodel", "dendropy.calculate.treesum", "dendropy.calculate.statistics", _TMD + "_edge"],
     "C06": [_DM + "treecollectionmodel", "dendropy.application.sumtrees"],
     "C07": [_TMD + "_tree", _TMD + "_node", _TMD + "_edge", "dendropy.calculate.phylogeneticdistance"],
     "C08": [_TMD + "_tree", _TMD + "_node"],
@@ -1797,7 +1797,7 @@ def leaked_loop_value_rule(index, rep, rid, modules):
     for m in modules:
         for f in index.functions_in_module(m):
             loops = [l for l in walk_no_nested(f.node) if isinstance(l, (ast.For, ast.While))]
-            if len(loops) < 2:
+            if not loops:
                 continue
             allst = [x for x in walk_no_nested(f.node) if isinstance(x, ast.Name) and isinstance(x.ctx, (ast.Store, ast.Del))]
             found = []
@@ -1824,6 +1824,33 @@ def leaked_loop_value_rule(index, rep, rid, modules):
                             seen.add(x.id)
                             n += 1
                             found.append((x, l1, l2))
+            # ... nor into the straight-line code after it: a For loop's own target, bound nowhere else, read in the
+            # statements that follow a loop which has no `break` / `return` (so it is not a search) is the LAST item -
+            # the shape a statement takes when it is dedented out of the loop body by mistake
+            pm_l = None
+            for l1 in [l for l in loops if isinstance(l, ast.For)]:
+                tn = {x.id for x in ast.walk(l1.target) if isinstance(x, ast.Name)}
+                if not tn or any(isinstance(x, (ast.Break, ast.Return)) for x in ast.walk(l1)):
+                    continue
+                other = {x.id for x in ast.walk(f.node) if isinstance(x, ast.Name) and isinstance(x.ctx, ast.Store) and not any(x is y for y in ast.walk(l1.target))}
+                only_t = tn - other - set(f.all_params)
+                if not only_t:
+                    continue
+                pm_l = pm_l or parent_map(f.node)
+                par_l = pm_l.get(l1)
+                sibs_l = []
+                for fld in ("body", "orelse", "finalbody"):
+                    seq = getattr(par_l, fld, None)
+                    if isinstance(seq, list) and any(l1 is z for z in seq):
+                        sibs_l = seq[[i for i, z in enumerate(seq) if z is l1][0] + 1:]
+                for st in sibs_l:
+                    if isinstance(st, (ast.For, ast.While)):
+                        continue        # reads inside a later loop are the case above
+                    used = [x for x in ast.walk(st) if isinstance(x, ast.Name) and isinstance(x.ctx, ast.Load) and x.id in only_t]
+                    if used and not any(used[0].id == y.id for y, _, _ in found):
+                        n += 1
+                        found.append((used[0], l1, st))
+                        break
             names = {x.id for x, _, _ in found}
             why = LEAKED_LOOP_VALUE_OK.get(f.qualname)
             if why and len(names) == 1:
@@ -1836,7 +1863,7 @@ def leaked_loop_value_rule(index, rep, rid, modules):
                     continue
                 done.add(x.id)
                 rep.check(False, rid, f.qualname, "a value of an earlier loop read in a later loop (#%d)" % len(done), fn_where(f, x), "",
-                          "%s binds `%s` only inside the loop at line %d and reads it inside the later loop at line %d: every pass of the second loop sees what the LAST pass of the first left behind - items collected from several blocks / groups are all built against the last one's value (trees of an earlier <trees> block get the taxa of the last <otus> block)" % (f.qualname, x.id, l1.lineno, l2.lineno))
+                          "%s binds `%s` only inside the loop at line %d and reads it after that loop, at line %d: what is read there is what the LAST pass of the loop left behind (a statement dedented out of a loop body acts on the last item only - Edge.collapse gives the collapsed edge's length to the last child alone; a second loop sees the last value on every pass) - items collected from several blocks / groups are all built against the last one's value (trees of an earlier <trees> block get the taxa of the last <otus> block)" % (f.qualname, x.id, l1.lineno, l2.lineno))
     return n
 
 
